@@ -43,6 +43,7 @@ import (
 	"context"
 	"errors"
 	"io"
+	"log"
 	"net"
 	"net/http"
 	"sync/atomic"
@@ -279,9 +280,16 @@ func (p *vqPStore) Execute(ctx context.Context, er *command.ExecuteRequest) ([]*
 		a.sqls = append(a.sqls, st.Sql)
 	}
 	h.attempts = append(h.attempts, a)
-	k := vqOutLocal
+	// whether the attempt fails is chosen by the engine; in which way it fails / succeeds is a
+	// function of its position in the run (runQueue only tells the kinds apart for its log)
+	fail := false
 	if h.budget > 0 && h.batchFails < 2 {
-		k = verifChoice(verifName("outcome", len(h.attempts)), vqOutN)
+		fail = verifChoice(verifName("fail", len(h.attempts)), 2) == 1
+	}
+	mix := len(h.attempts) + len(h.reqs) + h.batchSize + h.kindShift
+	k := vqOutLocal + mix%2
+	if fail {
+		k = vqOutNoLeader + mix%3
 	}
 	switch k {
 	case vqOutForwarded:
@@ -345,6 +353,7 @@ type vqH struct {
 	batchFails  int // failures in a row
 	leaderKnown bool
 	nextStmt    int
+	kindShift   int // varies the kinds of outcome between runs
 }
 
 func (h *vqH) failed() {
@@ -368,6 +377,7 @@ func vqNew(batchSize, budget, workers int) *vqH {
 		DefaultQueueBatchSz: batchSize,
 		DefaultQueueTimeout: vqQueueTimeout,
 		DefaultQueueTx:      true,
+		logger:              log.New(io.Discard, "", 0),
 	}
 	s.store = &vqStore{h: h}
 	s.proxy = proxy.New(&vqPStore{h: h}, &vqCluster{h: h})
@@ -567,8 +577,10 @@ func (h *vqH) observe() {
 	// retry discipline over the attempts made so far
 	for i, a := range h.attempts {
 		verifAssert("C23-batch-in-default-transaction-mode", a.tx == h.s.DefaultQueueTx)
-		if a.remote {
-			verifAssert("C23-forwarded-to-the-leader", a.addr == vqLeaderAddr)
+		if a.fwd == 1 {
+			// the leader was reachable: the batch went to it
+			verifReach("applied-by-the-leader")
+			verifAssert("C23-forwarded-to-the-leader", a.remote && a.ok && a.addr == vqLeaderAddr)
 		}
 		if i == 0 || h.attempts[i-1].ok {
 			continue
@@ -707,7 +719,9 @@ func vqRun(steps, batchSize, budget int, short bool) {
 	defer h.cleanup()
 	for s := 0; s < steps; s++ {
 		acts := h.enabled(short)
-		h.step(acts[verifChoice(verifName("act", s), len(acts))%len(acts)])
+		a := acts[verifChoice(verifName("act", s), len(acts))%len(acts)]
+		h.kindShift += a
+		h.step(a)
 	}
 	h.finish()
 }
@@ -715,12 +729,12 @@ func vqRun(steps, batchSize, budget int, short bool) {
 // VerifC23Schedule: every schedule of K actions, batch size 1..2, every placement of the
 // environment's failures.
 func VerifC23Schedule() {
-	k, budget := 3, 2
+	k, budget := 2, 2
 	if verifTier() == 1 {
-		k, budget = 4, 3
+		k, budget = 3, 2
 	}
 	batchSize := 1 + verifChoice("batchSize", 2)
-	vqRun(k, batchSize, budget, verifTier() == 1)
+	vqRun(k, batchSize, budget, false)
 }
 
 // VerifC23Timeout: a handler whose wait times out while its batch is being retried.
@@ -732,7 +746,9 @@ func VerifC23Timeout() {
 	h.step(vqActShort)
 	acts := []int{vqActTwo, vqActTick, vqActSecond, vqActOne}
 	h.step(acts[verifChoice("act0", len(acts))])
-	h.step(acts[verifChoice("act1", len(acts))])
+	if verifTier() == 1 {
+		h.step(acts[verifChoice("act1", len(acts))])
+	}
 	h.finish()
 }
 
@@ -741,7 +757,7 @@ func VerifC23Timeout() {
 // the queue), not only between whole operations.
 func VerifC23Preempt() {
 	batchSize := 1 + verifChoice("batchSize", 2)
-	vqRun(2, batchSize, 1, false)
+	vqRun(1+verifTier(), batchSize, 1, false)
 }
 
 // VerifC23Twin: same machinery, final assertion must fail.
